@@ -22,7 +22,9 @@ RULE = ("Hypothesis cases: 1-5 attributes drawn from 14 default kinds (constant,
         "and container traits); after every step the raw class tables and the definitions seen by every other instance are "
         "compared; non-trivial "
         "= a default container mutated on one instance before the same attribute is first read on another, an instance "
-        "trait added, or a handler registered on one instance; distinct by digest")
+        "trait added, or a handler registered on one instance; distinct by digest.  Stage solo: histories of 2-24 ops over three "
+        "instances of a class with dynamic Range / Enum / method-default attributes, played interleaved and per instance alone; "
+        "non-trivial = at least two instances take part, or a first read fails after the default was computed")
 ASSUMPTIONS = ["instances are identified by a serial number stored on them, never by id()",
                "fresh-per-call defaults (Instance with args) are compared by type and plain value"]
 
